@@ -205,3 +205,27 @@ pub trait IterUtilsExt: Iterator {
 //@ item src/iter_utils.rs | - | impl<I> IterUtilsExt for I where I: Iterator
 impl<I> IterUtilsExt for I where I: Iterator {}
 //@ end
+
+/// membership in a filter-map
+pub proof fn lemma_fm_contains<A, B>(s: Seq<A>, f: spec_fn(A) -> Option<B>, b: B)
+    ensures fm_seq(s, f).contains(b) <==> (exists|j: int| 0 <= j < s.len() && f(#[trigger] s[j]) == Some(b))
+    decreases s.len()
+{
+    if s.len() > 0 {
+        let t = s.drop_first();
+        lemma_fm_contains(t, f, b);
+        let hd: Seq<B> = match f(s[0]) { Some(x) => seq![x], None => Seq::empty() };
+        let rest = fm_seq(t, f); let full = hd + rest;
+        if full.contains(b) {
+            let q = choose|q: int| 0 <= q < full.len() && full[q] == b;
+            if q < hd.len() { assert(f(s[0]) == Some(b)); }
+            else { assert(rest[q - hd.len()] == b); assert(rest.contains(b));
+                let j = choose|j: int| 0 <= j < t.len() && f(#[trigger] t[j]) == Some(b); assert(s[j + 1] == t[j]); }
+        }
+        if exists|j: int| 0 <= j < s.len() && f(#[trigger] s[j]) == Some(b) {
+            let j = choose|j: int| 0 <= j < s.len() && f(#[trigger] s[j]) == Some(b);
+            if j == 0 { assert(full[0] == b); }
+            else { assert(t[j - 1] == s[j]); assert(rest.contains(b)); let q = choose|q: int| 0 <= q < rest.len() && rest[q] == b; assert(full[hd.len() + q] == b); }
+        }
+    }
+}
